@@ -130,8 +130,8 @@ def site_field_kinds(ctx, rule, I, sites):
 
 
 def forwarding_rule(ctx, rule):
-    """ObjdumpParserManual.parse(text, consumer): the lines handed to parse_line are the text's own lines (text.split('\\n')
-    or text.splitlines(), nothing rewritten before), every parsed line that is an Instruction is forwarded once, in line
+    """ObjdumpParserManual.parse(text, consumer): the lines handed to parse_line are the text's own lines (text.split('\\n'),
+    nothing rewritten before), every parsed line that is an Instruction is forwarded once, in line
     order, and nothing else (config, other conditions) decides"""
     from ..models import make_interp
     from ..values import Hole, Str, Unknown
@@ -161,7 +161,9 @@ def forwarding_rule(ctx, rule):
                  and not (isinstance(k, tuple) and k[0] == "truth")]
         not_instr = any(isinstance(k, tuple) and k[0] == "isinstance" and k[-1] == "Instruction" and v is False for k, v, _ in p.conds)
         empty = any(isinstance(k, tuple) and k[0] == "truth" and v is False for k, v, _ in p.conds)
-        wants = [[]] if (not_instr or empty) else [["parse_line(<<FILE>.split('\\n')[*]>)"], ["parse_line(<<FILE>.splitlines()[*]>)"]]
+        # the lines of a listing are what objdump separated by "\n". str.splitlines() is NOT the same function: it also breaks at
+        # \r \v \f \x1c-\x1e \x85 \u2028 \u2029, which may sit inside a <symbol> or a # comment (seeded change C16-13)
+        wants = [[]] if (not_instr or empty) else [["parse_line(<<FILE>.split('\\n')[*]>)"]]
         ok = args in wants and not cfg and not other
         ctx.check(ok, rule, "ObjdumpParserManual.parse",
                   f"consumed={args} expected={wants[0]} config-reads={[c.key for c in cfg]} other-conditions={[str(k)[:40] for k, _ in other]}"[:240],
